@@ -221,9 +221,10 @@ type Line struct {
 
 // Decision is one answer the oracle gave on this run.
 type Decision struct {
-	Sym    string `json:"sym"`
-	Choice int    `json:"choice"`
-	N      int    `json:"n"`
+	Sym    string   `json:"sym"`
+	Choice int      `json:"choice"`
+	N      int      `json:"n"`
+	Cands  []string `json:"cands,omitempty"` // for switches: the case expressions, in choice order (last = default/none)
 }
 
 // Request is a helper function requested through GetFuncName.
@@ -262,6 +263,7 @@ type Interp struct {
 	recCut     bool
 	predCalls  []predCall
 	recN       int
+	g9mode     bool // tabulating a predicate: helper predicates are interpreted, only recursive calls are answered by the oracle
 }
 
 type predCall struct {
@@ -372,6 +374,21 @@ func (in *Interp) gpanic(pos token.Pos, format string, a ...interface{}) {
 
 var tieRe = regexp.MustCompile(`\[\d+\]`)
 
+func (in *Interp) decideC(sym string, n int, cands []string) int {
+	c := in.decide(sym, n)
+	if len(in.decisions) > 0 && in.decisions[len(in.decisions)-1].Sym == in.canonSym(sym) && in.decisions[len(in.decisions)-1].Cands == nil {
+		in.decisions[len(in.decisions)-1].Cands = cands
+	}
+	return c
+}
+
+func (in *Interp) canonSym(sym string) string {
+	if in.tie {
+		return tieRe.ReplaceAllString(sym, "[*]")
+	}
+	return sym
+}
+
 func (in *Interp) decide(sym string, n int) int {
 	if in.tie {
 		sym = tieRe.ReplaceAllString(sym, "[*]")
@@ -384,7 +401,7 @@ func (in *Interp) decide(sym string, n int) int {
 	}
 	c := in.or.choose(n)
 	in.memo[sym] = c
-	in.decisions = append(in.decisions, Decision{sym, c, n})
+	in.decisions = append(in.decisions, Decision{Sym: sym, Choice: c, N: n})
 	return c
 }
 
@@ -869,7 +886,14 @@ func (in *Interp) stmt(fr *Frame, s ast.Stmt) (ctl, Value) {
 			return c, r
 		}
 		if allUnknown && len(flat) > 0 {
-			pick := in.decide("S:"+origin(tag)+fmt.Sprint(len(flat))+fr.pkg.Fset.Position(v.Pos()).String(), len(flat)+1)
+			var cands []string
+			for _, cc := range v.Body.List {
+				for _, e := range cc.(*ast.CaseClause).List {
+					cands = append(cands, types.ExprString(e))
+				}
+			}
+			cands = append(cands, "default")
+			pick := in.decideC("S:"+origin(tag)+"#"+fmt.Sprint(len(flat))+"@"+in.switchID(v), len(flat)+1, cands)
 			if pick < len(flat) {
 				return run(flat[pick])
 			}
@@ -1062,6 +1086,8 @@ func (in *Interp) binop(op token.Token, a, b Value, sym string) Value {
 		switch op {
 		case token.ADD, token.SUB:
 			return VInt{Sym: origin(x) + op.String() + origin(y)}
+		case token.AND, token.OR, token.XOR, token.AND_NOT, token.SHL, token.SHR, token.MUL, token.QUO, token.REM:
+			return VInt{Sym: origin(x) + op.String() + origin(y) + "\u27e8" + sym + "\u27e9"}
 		}
 		return VBool{Sym: origin(x) + op.String() + origin(y)}
 	case VBool:
@@ -1512,7 +1538,7 @@ func (in *Interp) call(fr *Frame, c *ast.CallExpr) Value {
 	org += ")"
 	switch f := fun.(type) {
 	case *VFunc:
-		if f.Decl != nil && in.isPurePredicate(f) {
+		if f.Decl != nil && in.isPurePredicate(f) && !(in.g9mode && in.stack[f.Decl] == 0) {
 			sig := f.Pkg.TypesInfo.Defs[f.Decl.Name].Type().(*types.Signature)
 			key := "pred:" + f.Decl.Name.Name + "("
 			for _, a := range args {
@@ -2021,4 +2047,21 @@ func exprsStr(es []ast.Expr) string {
 
 func isIdentByte(c byte) bool {
 	return c == '_' || c >= '0' && c <= '9' || c >= 'a' && c <= 'z' || c >= 'A' && c <= 'Z' || c >= 0x80
+}
+
+// switchID names a switch statement by its enclosing function and its ordinal among that function's switches.
+func (in *Interp) switchID(sw *ast.SwitchStmt) string {
+	for _, fi := range in.repo.Decls {
+		if fi.Decl.Pos() <= sw.Pos() && sw.Pos() < fi.Decl.End() {
+			n := 0
+			ast.Inspect(fi.Decl, func(x ast.Node) bool {
+				if s2, ok := x.(*ast.SwitchStmt); ok && s2.Pos() < sw.Pos() {
+					n++
+				}
+				return true
+			})
+			return fmt.Sprintf("%s/sw%d", funcKey(fi.Fn), n)
+		}
+	}
+	return "?"
 }
